@@ -51,6 +51,11 @@ def run(ctx):
             opts["window"] = rng.randint(1, 6)
         if rng.random() < 0.25:
             opts["penalty"] = rng.choice([0.1, 1.0])
+        if rng.random() < 0.2 and min(len(x_) for x_ in ss) >= 3:
+            # begin/end relaxation, also different for the series and the mean: "nearest under DTW with the given options"
+            # then means DTW(series, mean), in this argument order
+            opts["psi"] = rng.choice([1, (1, 1, 0, 0), (0, 0, 1, 1), (1, 0, 0, 1), (2, 0, 0, 0), (0, 0, 0, 2)])
+            ctx.count("fits_with_psi")
         use_c = rng.random() < 0.5
         if use_c:
             opts["use_c"] = True
